@@ -290,6 +290,26 @@ theorem editLoop_writes (C : CryptoFns) (G : GpgBackend) (sslib : Bool) :
       exact ih md rest w
 
 
+/-- **opening a stored file in the editor and writing it out unchanged persists it like any other write**: the session "0, <name>" on a loadable file
+writes exactly one file, under the name typed, holding the canonical serialization of what the file held — every signature entry as it was -/
+theorem edit_open_and_save (C : CryptoFns) (G : GpgBackend) (sslib : Bool) (file : Option Bytes) (md : J) (name : PStr) (more : List PStr)
+    (hl : loadFile file = .ok md) :
+    (cliModifyMetadata C G sslib file ([48] :: name :: more)).writes = [(name, ser md)] ∧
+    (cliModifyMetadata C G sslib file ([48] :: name :: more)).outcome = .returned none := by
+  have h0 : pyIntOfStr [48] = some 0 := by decide
+  simp [cliModifyMetadata, hl, editLoop, h0]
+
+/-- **two holders sign through the editor, one after the other, and both signatures are in what is written**: the session "2, <key A>, 2, <key B>, 0, <name>"
+on an envelope writes the envelope signed by A and then by B — the second signing keeps the first one's entry (`C09.sign_other_entries`) -/
+theorem edit_two_signers (C : CryptoFns) (G : GpgBackend) (sslib : Bool) (file : Option Bytes) (md md1 md2 : J) (ka kb name : PStr)
+    (hl : loadFile file = .ok md)
+    (hka : isHexKeyJ (.str (stripAllSpaceLower ka)) = .ok true) (hkb : isHexKeyJ (.str (stripAllSpaceLower kb)) = .ok true)
+    (h1 : signSignableJ C md (unhex (stripAllSpaceLower ka)) = .ok md1) (h2 : signSignableJ C md1 (unhex (stripAllSpaceLower kb)) = .ok md2) :
+    (cliModifyMetadata C G sslib file [[50], ka, [50], kb, [48], name]).writes = [(name, ser md2)] := by
+  have h0 : pyIntOfStr [48] = some 0 := by decide
+  have h2' : pyIntOfStr [50] = some 2 := by decide
+  simp [cliModifyMetadata, hl, editLoop, h0, h2', editAddSig, hka, hkb, h1, h2]
+
 /-- `modify-metadata` never touches the file it reads and leaves no file behind when the session is aborted or cut short -/
 theorem edit_session_files (C : CryptoFns) (G : GpgBackend) (sslib : Bool) (file : Option Bytes) (inputs : List PStr) :
     (cliModifyMetadata C G sslib file inputs).writes = [] ∨
